@@ -17,6 +17,8 @@ import (
 func H_C08_record_reachable() {
 	flagSeed = seedFlag{bytes: []byte("12345678")}
 	flagDebug = false
+	// one class of hashed-name lengths (the length is chosen by a digest byte)
+	symx.DigestClass(neededSumBytes, maxHashLength-minHashLength+1, 0)
 	sharedCache = &sharedCacheType{ListedPackages: newListedPackages()}
 	outerObf := symx.Choose(2) == 1
 	outerForeign := symx.Choose(2) == 1
@@ -34,10 +36,10 @@ func H_C08_record_reachable() {
 		outerPkg, outerL = apiPkg, api
 	}
 
-	innerName := "I" + asciiIdent("inner", 1)
-	innerField := "F" + asciiIdent("ifield", 1)
-	outerName := "O" + asciiIdent("outer", 1)
-	outerField := "G" + asciiIdent("ofield", 1)
+	innerName := "I" + lowerLetter("inner")
+	innerField := "F" + lowerLetter("ifield")
+	outerName := "O" + lowerLetter("outer")
+	outerField := "G" + lowerLetter("ofield")
 
 	innerStruct := types.NewStruct([]*types.Var{
 		types.NewField(token.NoPos, inPkg, innerField, types.Typ[types.Int], false),
@@ -71,6 +73,23 @@ func H_C08_record_reachable() {
 	}, nil)
 	outer := types.NewNamed(types.NewTypeName(token.NoPos, outerPkg, outerName, nil), outerStruct, nil)
 
+	// the hashed names involved; a collision among them is excluded (C16: a clash needs a
+	// genuine collision of the truncated digest, which the analysis could not survive either)
+	hInner := hashWithPackage(in, innerName)
+	hOuter := hashWithPackage(outerL, outerName)
+	hIF := hashWithStruct(innerStruct, innerStruct.Field(0))
+	hOF := hashWithStruct(outerStruct, outerStruct.Field(0))
+	hON := hashWithStruct(outerStruct, outerStruct.Field(1))
+	all := []string{hInner, hOuter, hIF, hOF, hON}
+	if anon != nil {
+		all = append(all, hashWithStruct(anon, anon.Field(0)))
+	}
+	for i := range all {
+		for j := i + 1; j < len(all); j++ {
+			symx.Assume(all[i] != all[j])
+		}
+	}
+
 	ri := &reflectInspector{lpkg: cur, pkg: curPkg, checkedAPIs: map[string]bool{}, result: pkgCache{
 		ReflectAPIs: map[string]map[int]bool{}, ReflectObjectNames: map[string]string{},
 	}}
@@ -86,14 +105,21 @@ func H_C08_record_reachable() {
 		symx.Assert(ok && got == orig, what)
 	}
 	// Inner and its field are declared in an obfuscated package: their hashed names must map back
-	has(hashWithPackage(in, innerName), innerName, "the named type nested under the reflected type is recorded")
-	has(hashWithStruct(innerStruct, innerStruct.Field(0)), innerField, "the fields of the nested named type are recorded")
+	has(hInner, innerName, "the named type nested under the reflected type is recorded")
+	has(hIF, innerField, "the fields of the nested named type are recorded")
 	// fields are hashed by struct shape wherever they are declared
-	has(hashWithStruct(outerStruct, outerStruct.Field(0)), outerField, "the fields of the reflected type are recorded")
+	has(hOF, outerField, "the fields of the reflected type are recorded")
 	if anon != nil {
 		has(hashWithStruct(anon, anon.Field(0)), "X", "the fields of an anonymous struct on the way are recorded")
 	}
 	if outerL.ToObfuscate {
-		has(hashWithPackage(outerL, outerName), outerName, "the reflected named type itself is recorded")
+		has(hOuter, outerName, "the reflected named type itself is recorded")
 	}
+}
+
+// lowerLetter is one symbolic lower-case letter.
+func lowerLetter(name string) string {
+	s := symx.String(name, 1)
+	symx.Assume(s[0] >= 'a' && s[0] <= 'z')
+	return s
 }
